@@ -21,6 +21,7 @@ from vf import core, logmon, vloop, wire
 core.use_repo()
 from tornado import web  # noqa: E402
 
+from vf.refs import http as H  # noqa: E402
 from vf.refs import http_extra as X  # noqa: E402
 
 PROP = "C02"
@@ -43,15 +44,21 @@ META = {
 RULE = ("a case is (method, version, Connection, If-None-Match form, send mode, handler program of <= 7 ops over "
         "set_status/set_header/add_header/clear_header/explicit Content-Length/write/flush/finish/raise/settle with chunks "
         "b'', 1 B, CRLF-bearing, fake-terminator, 1 KiB, 70 KiB); non-trivial when the program writes >= 1 non-empty chunk and "
-        "(flushes before finishing, or the status/method is bodiless, or the request is HTTP/1.0); distinct by the whole case")
+        "(flushes before finishing, or the status/method is bodiless, or the request is HTTP/1.0); distinct by the whole case; "
+        "'xform' cases run clean programs (content type in/out of the compressible set, chunk sizes around the 1 KiB gzip "
+        "threshold, Accept-Encoding with/without gzip, mostly HEAD) under compress_response=True: the delimited body is decoded "
+        "per Content-Encoding before comparison and a HEAD Content-Length is compared with the wire body of the GET twin")
 FLOORS = {"quick": 1500, "thorough": 60000}
 ASSUMPTIONS = [
     "reference interpreter of handler programs encodes the statement correctly",
     "strict response reader (vf/refs/http.py) is correct",
     "AF_UNIX socketpair + virtual loop: quiescence means nothing is in flight",
-    "plain-TCP HTTPServer path only (no TLS, no xheaders); default Application settings",
+    "plain-TCP HTTPServer path only (no TLS, no xheaders); Application settings: default, and compress_response=True "
+    "(the one built-in output transform) for the 'xform' cases",
+    "zlib (full-stream gunzip of the delimited body) is correct",
 ]
-REQUIRED_COUNTERS = ["oracle_evals", "resp1_checked", "second_checked", "bodiless_checked", "close_delimited_checked"]
+REQUIRED_COUNTERS = ["oracle_evals", "resp1_checked", "second_checked", "bodiless_checked", "close_delimited_checked",
+                     "head_cl_checked", "head_twin_checked", "head_twin_get_was_encoded", "xform_gzip_decoded"]
 
 SECOND_BODY = b"SECOND-OK"
 SECOND_REQ = b"GET /second HTTP/1.1\r\nHost: t\r\n\r\n"
@@ -566,6 +573,27 @@ def judge(case, exp, obs, ctx, prop_checks=True):
            "raised": obs.box["raised"], "logs": obs.logs[:4]}
     ex = X.read_exchange(obs.rx, obs.eof, [case["method"], "GET"])
     wit["exchange"] = ex.as_dict()
+    if case.get("xform") and ex.responses:
+        # output transform configured (compress_response): the client decodes the delimited body according to the
+        # response's Content-Encoding; everything below judges the decoded body, the framing was decided on the wire bytes
+        r = ex.responses[0]
+        ce = [v.strip(b" \t").lower() for v in r.get_all("content-encoding")]
+        r.wire_body_len = len(r.body)
+        if ce == [b"gzip"] and r.body:
+            ctx.count("xform_gzip_decoded")
+            try:
+                r.body = H.gunzip_strict(r.body)
+            except H.Reject as e:
+                ctx.count("oracle_evals")
+                ctx.violation("xform/gzip-body-undecodable/" + why_key(str(e)),
+                              "the body is labelled Content-Encoding: gzip but a full-stream decoder fails: %s" % e, wit)
+                return ex
+        elif ce == [b"gzip"]:
+            ctx.count("xform_gzip_label_on_empty_body_" + ("head_or_bodiless" if case["method"] == "HEAD" or bodiless(r.status) else "other"))
+        elif ce:
+            ctx.count("unspecified_xform_content_encoding_other")
+        else:
+            ctx.count("xform_identity")
 
     for le in obs.loop_errors:
         # not pinned by the statement (which is about the bytes on the wire): counted, reported, never gated
@@ -663,6 +691,24 @@ def judge(case, exp, obs, ctx, prop_checks=True):
             if cl:
                 if alt["explicit_cl"] is not None and int(alt["explicit_cl"]) != len(alt["get_body"]):
                     ctx.count("unspecified_head_explicit_wrong_cl")
+                elif case.get("xform"):
+                    # with an output transform the body GET carries is the *encoded* one: ask the GET twin
+                    g = get_twin_response(case, exp)
+                    if g is None or g.status != r1.status:
+                        ctx.count("head_twin_unavailable")
+                    else:
+                        ctx.count("head_cl_checked")
+                        ctx.count("head_twin_checked")
+                        gce = [v.strip(b" \t").lower() for v in g.get_all("content-encoding")]
+                        hce = [v.strip(b" \t").lower() for v in r1.get_all("content-encoding")]
+                        if gce:
+                            ctx.count("head_twin_get_was_encoded")
+                        if gce != hce:
+                            ctx.count("unspecified_head_content_encoding_differs_from_get")
+                        ctx.check(cl == [b"%d" % len(g.body)], "head-content-length-differs-from-get-body/under-output-transform",
+                                  "Content-Length of the HEAD response is not the length of the (encoded) body the same GET carries",
+                                  {"head_cl": cl, "get_wire_body_len": len(g.body), "head_content_encoding": hce,
+                                   "get_content_encoding": gce, "get_content_length": g.get_all("content-length"), **wit})
                 else:
                     ctx.count("head_cl_checked")
                     ctx.check(cl == [b"%d" % len(alt["get_body"])], "head-content-length-differs-from-get-body",
@@ -777,6 +823,66 @@ def rand_case(rng, maxops=7):
             "prog": rand_program(rng, maxops)}
 
 
+# ---- output transforms (compress_response=True): the HEAD / Content-Length / framing clauses under a transform that
+# rewrites the framing headers from the body
+
+XFORM_SETTINGS = {"gzip": {"compress_response": True}}
+XF_CTYPES = [None, None, "text/plain", "text/html; charset=UTF-8", "application/json", "application/json; charset=UTF-8",
+             "image/svg+xml", "application/xml", "application/octet-stream", "image/png"]
+XF_AE = ["gzip", "gzip", "gzip", "gzip", "deflate, gzip", "br;q=1.0, gzip;q=0.8", None, "identity", "deflate"]
+XF_SIZES = [0, 1, 500, 1023, 1024, 1024, 1025, 2048, 5000]
+XF_HDR_OPS = [("set", "X-A", "v1"), ("add", "X-B", "a b"), ("set", "Cache-Control", "no-store"), ("set", "Etag", '"app-tag"'),
+              ("set", "Vary", "Cookie"), ("status", 201), ("status", 404), ("status", 206), ("status", 200, "Fine")]
+
+
+def rand_xform_case(rng):
+    """Clean programs (no rejected operation, no bodiless status) under compress_response=True: HEAD and its GET twin must
+    agree on Content-Length whatever the transform does to the body."""
+    v, c = rng.choice(VFORMS)
+    prog = []
+    ct = rng.choice(XF_CTYPES)
+    if ct is not None:
+        prog.append(("set", "Content-Type", ct))
+    for _ in range(rng.choice([0, 0, 1, 2])):
+        prog.append(rng.choice(XF_HDR_OPS))
+    nw = rng.choice([1, 1, 1, 2, 3])
+    body, total = [], 0
+    for i in range(nw):
+        n = rng.choice(XF_SIZES) if rng.random() < 0.96 else 70 * 1024 + rng.randrange(3)
+        spec = ("e",) if n == 0 else (rng.choice(["t", "t", "t", "b", "r"]), n, rng.randrange(256))
+        total += n
+        body.append(("finish", spec) if (i == nw - 1 and rng.random() < 0.4) else ("write", spec))
+        if rng.random() < 0.2:
+            body.append(("flush", rng.random() < 0.3))
+        if rng.random() < 0.15:
+            body.append(("settle",))
+    if rng.random() < 0.1:
+        prog.append(("set", "Content-Length", str(total)))
+    if rng.random() < 0.05:
+        prog.append(("flush", False))
+    ae = rng.choice(XF_AE)
+    return {"xform": "gzip", "wplan": rng.choice([None, None, None, "throttle"]),
+            "method": rng.choice(["HEAD", "HEAD", "GET", "POST"]), "version": v, "conn": c,
+            "inm": rng.choice([None] * 8 + ["match", "weak", "other"]),
+            "send": rng.choice(["pipelined", "pipelined", "sequential"]),
+            "req_headers": [] if ae is None else ["Accept-Encoding: " + ae], "prog": prog + body}
+
+
+def xform_exchange(case, exp):
+    inm = inm_header(case.get("inm"), exp.etag_body if exp.etag_body is not None else b"")
+    return run_exchange(case, build_request(case, inm), app_settings=XFORM_SETTINGS[case["xform"]])
+
+
+def get_twin_response(case, exp):
+    """First response (as on the wire, not decoded) to the same request with method GET under the same settings."""
+    twin = dict(case, method="GET", send="pipelined", wplan=None)
+    tobs = xform_exchange(twin, exp) if case.get("xform") else None
+    if tobs is None:
+        return None
+    tex = X.read_exchange(tobs.rx, tobs.eof, ["GET", "GET"])
+    return tex.responses[0] if tex.responses else None
+
+
 EXH_OPS = [("write", ("lit", "one")), ("write", ("e",)), ("flush", False), ("finish",), ("finish", ("lit", "y")),
            ("status", 204), ("status", 304), ("set", "X-A", "v1"), ("set", "Content-Length", "1"), ("raise", 500)]
 
@@ -796,11 +902,15 @@ def shards(tier, seed):
     if tier == "quick":
         for j in range(16):
             out.append({"kind": "rand", "n": 250, "j": j})
+        for j in range(4):
+            out.append({"kind": "xform", "n": 150, "j": j})
         for vi in range(len(VFORMS)):
             out.append({"kind": "exh", "vform": vi, "depth": 2, "first": None})
     else:
         for j in range(32):
             out.append({"kind": "rand", "n": 3200, "j": j})
+        for j in range(8):
+            out.append({"kind": "xform", "n": 2500, "j": j})
         for vi in range(len(VFORMS)):
             for first in range(len(EXH_OPS)):
                 out.append({"kind": "exh", "vform": vi, "depth": 4, "first": first})
@@ -812,6 +922,10 @@ def gen_cases(spec):
         rng = core.rng_for(spec["seed"], PROP, spec["j"])
         for _ in range(spec["n"]):
             yield rand_case(rng)
+    elif spec["kind"] == "xform":
+        rng = core.rng_for(spec["seed"], PROP, "xform%d" % spec["j"])
+        for _ in range(spec["n"]):
+            yield rand_xform_case(rng)
     else:
         v, c = VFORMS[spec["vform"]]
         firsts = [EXH_OPS[spec["first"]]] if spec["first"] is not None else None
@@ -852,6 +966,13 @@ def directed_cases():
            "prog": [("set", "Content-Length", "1"), ("write", ("lit", "y"))]}
     yield {"method": "GET", "version": "1.1", "conn": None, "inm": None, "send": "pipelined",
            "prog": [("set", "Content-Length", "5"), W, ("flush", False), ("finish",)]}
+    # HEAD under an output transform that rewrites Content-Length from the body (compress_response)
+    gz = {"xform": "gzip", "version": "1.1", "conn": None, "inm": None, "send": "pipelined", "req_headers": ["Accept-Encoding: gzip"]}
+    yield dict(gz, method="HEAD", prog=[("set", "Content-Type", "text/plain"), ("write", ("t", 5000, 2))])
+    yield dict(gz, method="HEAD", prog=[("write", ("t", 1024, 2))])
+    yield dict(gz, method="HEAD", version="1.0", conn="keep-alive", prog=[("finish", ("t", 2048, 3))])
+    yield dict(gz, method="GET", prog=[("write", ("t", 1024, 2)), ("flush", False), ("write", ("t", 3000, 4))])
+    yield dict(gz, method="HEAD", prog=[("set", "Content-Type", "image/png"), ("write", ("b", 5000, 2))])
 
 
 def is_nontrivial(case, exp):
@@ -874,6 +995,22 @@ def eager_index(case, obs):
 
 def run_case(case, ctx):
     exp = reference(case)
+    if case.get("xform"):
+        ctx.count("xform_cases")
+        if exp.unspec or exp.abort_ok or not exp.alts or exp.alts[0]["kind"] != "normal" or any(
+                o[0] in ("set", "add") and o[1].lower() == "content-encoding" for o in case["prog"]):
+            # rejected operations / explicit Content-Length conflicts interact with a transform that rewrites the
+            # framing headers in ways the statement does not pin; those programs are judged without transform only
+            ctx.count("unspecified_xform_program_outside_scope")
+            ctx.mark(case, False)
+            return
+        obs = xform_exchange(case, exp)
+        judge(case, exp, obs, ctx)
+        nt = any(o[0] in ("write", "finish") and len(o) > 1 and chunk_len(o[1]) > 0 for o in case["prog"])
+        ctx.mark(case, nt)
+        if nt:
+            ctx.sample(case)
+        return
     inm = inm_header(case.get("inm"), exp.etag_body if exp.etag_body is not None else b"")
     obs = run_exchange(case, build_request(case, inm))
     ea = eager_index(case, obs)
